@@ -150,6 +150,7 @@ class Engine:
             # quarantined shape classes (shapes.quarantine_class): the key names the class, language and hop kind
             xl = len({l for l, m, _ in path if "n" in m}) > 1
             key = "quarantine/%s/%s/%s/%s/%s" % (P[2], lang, ("ndjson-xlang" if xl else "ndjson") if "n" in mode else "binary", what, sy)
+        key = getattr(self, "key_prefix", "") + key
         replay = {"namespace": self.pkg.namespace, "protocol": P, "step": None if i is None else self.protos[P].steps[i][0],
                   "step_type": sy, "path": path, "values": repr(vals)[:3000], "partitions": parts,
                   "model_yaml": am.yaml_model(self.pkg) if i is None else am.yaml_def(self.protos[P]),
